@@ -530,3 +530,75 @@ pub fn replay(prop: &str, path: &str) -> i32 {
         }
     }
 }
+
+/// Development aid (not a registered check): one pass over the tier's grammar evaluating ALL solve-based
+/// oracles at once; prints per property the number of violations and a few examples.
+pub fn survey(tier_name: &str) -> i32 {
+    let t = tier(tier_name, false);
+    let exe = std::env::current_exe().expect("current exe");
+    let props = ["C01", "C02", "C03", "C04", "C05", "C06", "C07", "C08", "C15", "C16"];
+    let nseeds = t.seeds.len();
+    let ntasks = t.insts.len() * nseeds;
+    let agg: Mutex<(BTreeMap<String, usize>, Vec<String>, usize, usize)> = Mutex::new((BTreeMap::new(), vec![], 0, 0));
+    let make = |i: usize| json!({"kind": "solve", "code": t.insts[i / nseeds].code(), "seed": t.seeds[i % nseeds], "props": props});
+    let on_result = |i: usize, o: Outcome| {
+        let mut a = agg.lock().unwrap();
+        a.2 += 1;
+        let inst = &t.insts[i / nseeds];
+        match o {
+            Outcome::Hang => {
+                a.3 += 1;
+                *a.0.entry("HANG".into()).or_insert(0) += 1;
+                if a.1.len() < 200 {
+                    a.1.push(format!("HANG {} seed {}", inst.describe(), t.seeds[i % nseeds]));
+                }
+            }
+            Outcome::Crash(s) => {
+                *a.0.entry("CRASH".into()).or_insert(0) += 1;
+                if a.1.len() < 200 {
+                    a.1.push(format!("CRASH {} {} seed {}", s, inst.describe(), t.seeds[i % nseeds]));
+                }
+            }
+            Outcome::Done(v) => {
+                if v["status"] == "panic" {
+                    let k = format!("PANIC {}:{}", site_without_line(v["site"].as_str().unwrap_or("")), v["msg"].as_str().unwrap_or("").chars().take(50).collect::<String>());
+                    let c = a.0.entry(k.clone()).or_insert(0);
+                    *c += 1;
+                    if *c <= 3 {
+                        a.1.push(format!("{} on {} seed {}", k, inst.describe(), t.seeds[i % nseeds]));
+                    }
+                } else if v["status"] == "ok" {
+                    for p in props {
+                        if p == "C08" && !inst.has_maintenance() {
+                            continue;
+                        }
+                        for e in v["results"][p]["viol"].as_array().into_iter().flatten() {
+                            let k = format!("{}:{}", p, e[0].as_str().unwrap_or(""));
+                            let c = a.0.entry(k.clone()).or_insert(0);
+                            *c += 1;
+                            if *c <= 3 {
+                                a.1.push(format!("{} {} -- {} seed {}", k, e[1].as_str().unwrap_or(""), inst.describe(), t.seeds[i % nseeds]));
+                            }
+                        }
+                    }
+                } else {
+                    *a.0.entry(format!("MACHINERY {}", v)).or_insert(0) += 1;
+                }
+            }
+        }
+        if a.2 % 200000 == 0 {
+            crate::say!("  ... {} of {} tasks, kinds so far: {:?}", a.2, ntasks, a.0);
+        }
+    };
+    let stop = || agg.lock().unwrap().3 >= HANG_CAP;
+    match pool::run_tasks_stoppable(&exe, ntasks, nworkers(), HORIZON, &make, &on_result, &stop) {
+        Ok(d) => crate::say!("survey {}: dispatched {} of {} tasks", tier_name, d, ntasks),
+        Err(e) => crate::say!("survey machinery error: {}", e.0),
+    }
+    let a = agg.into_inner().unwrap();
+    crate::say!("violation kinds: {:?}", a.0);
+    for l in &a.1 {
+        crate::say!("  {}", l);
+    }
+    if a.0.is_empty() { 0 } else { 1 }
+}
